@@ -105,6 +105,8 @@ def canon(eff, acceptor_of_tester=False):
         elif k in ("C", "R"):
             if acceptor_of_tester and k == "C" and e[1] == "Other:NotImplementedError":
                 out.append("SNI")
+            elif e[1] == "Other:UnicodeEncodeError":  # a ValueError (reply's own .encode("latin-1"))
+                out.append(f"{k}=Value")
             else:
                 out.append(f"{k}={e[1]}")
         else:
@@ -340,7 +342,7 @@ LOGON = ("A", [(98, "0"), (108, "30")])
 def payload(rng, k, direction):
     kind = rng.random()
     if kind < 0.5:
-        return ("D" if direction == "I" else "8", [(11, f"c{k}"), (58, rng.choice(["text", "fill 1/8", "x" * 40]))])
+        return ("D" if direction == "I" else "8", [(11, f"c{k}"), (58, rng.choice(["text", "fill 1/8", "x" * 40, "café", "grüß ÿ"]))])
     if kind < 0.7:
         return ("U1", [(58, f"custom{k}")])
     if kind < 0.85:
@@ -376,10 +378,12 @@ def op_of(name, rng, k):
         return ("asend", ("4", [(123, "N"), (36, "9")]))
     if name == "x-asend-raw34":
         return ("asend", ("D", [(34, str(rng.choice([1, 2, 50]))), (58, "raw")]))
-    if name == "x-asend-latin1":
+    if name == "appA-latin1":
         return ("asend", ("D", [(58, rng.choice(["café", "grüß", "ÿ"]))]))
-    if name == "x-isend-latin1":
-        return ("isend", ("D", [(58, "café")]))
+    if name == "x-asend-nonlatin1":
+        return ("asend", ("D", [(58, "€ uro")]))
+    if name == "x-isend-nonlatin1":
+        return ("isend", ("D", [(58, "€ uro")]))
     if name == "x-asend-early":
         return ("asend", ("D", [(58, "before logon")]))
     if name == "x-isend-testreq":
@@ -387,7 +391,7 @@ def op_of(name, rng, k):
     raise ValueError(name)
 
 
-UNCLEAN = ["x-appI-early", "x-asend-seqreset-no34", "x-asend-raw34", "x-asend-latin1", "x-isend-latin1", "x-asend-early",
+UNCLEAN = ["x-appI-early", "x-asend-seqreset-no34", "x-asend-raw34", "x-asend-nonlatin1", "x-isend-nonlatin1", "x-asend-early",
            "x-isend-testreq"]
 
 
@@ -543,8 +547,8 @@ def correspondence(ctx, drv):
         "evaluations": len(lines), "distinct": len(distinct), "branches": branches, "samples": samples, "disagreements": dis,
         "rule": "%d clean scripts (logon, then application messages / TestRequest / Heartbeat either way, optional Logout by "
         "either side; all scripts with ≤ %d middle steps exhaustively, the rest random up to length %d, synchronised start counters "
-        "from a small set) and %d scripts with one unclean step (message before Logon, reply of a SequenceReset without 34, reply with "
-        "its own 34, non-ASCII text either way, TestRequest through send_msg); every step replayed on the real FIXTester and on a "
+        "from a small set, payload text incl. non-ASCII latin-1) and %d scripts with one unclean step (message before Logon, reply of a SequenceReset without 34, reply with "
+        "its own 34, text outside latin-1 either way, TestRequest through send_msg); every step replayed on the real FIXTester and on a "
         "real AsyncFIXDummyServer endpoint (reader task, fake transports) and compared with tst.tstep / tst.lstep: outcome, "
         "both effect traces, both connection states incl. journals, the tester's queue; mkAcceptor / realAcceptor vs the "
         "objects" % (ctx.n(200, 1500), ctx.n(2, 4), ctx.n(8, 12), ctx.n(40, 300)),
@@ -554,8 +558,8 @@ def correspondence(ctx, drv):
 def oracle(ctx, failures, stats, disagreements, broken):
     rng = ctx.rng
     scripts = gen_scripts(ctx, ctx.n(120, 800) * (3 if broken else 1), ctx.n(8, 12), ctx.n(2, 3))
-    # witness of the open finding: a reply with non-ASCII single-byte text
-    scripts.insert(0, (["logon", "x-asend-latin1"], (1, 1)))
+    # regression of the repaired finding C20-reply-nonascii-utf8: a reply with non-ASCII single-byte text
+    scripts.insert(0, (["logon", "appA-latin1", "appI"], (1, 1)))
     for d in disagreements:
         inp = d.get("input")
         if isinstance(inp, dict) and inp.get("kind") == "script":
@@ -569,11 +573,7 @@ def oracle(ctx, failures, stats, disagreements, broken):
             diff = lockstep_diff(r)
             if diff is None:
                 continue
-            if r["name"] == "x-asend-latin1":
-                sig = "C20-reply-nonascii-utf8"
-                what = ("FIXTester.reply() encodes the frame as UTF-8 (send_msg uses latin-1): a reply with non-ASCII single-byte "
-                        "text fails its own decode (checksum) after consuming the acceptor's MsgSeqNum")
-            elif r["name"].startswith("x-"):
+            if r["name"].startswith("x-"):
                 break
             else:
                 sig, what = f"C20-lockstep:{r['name']}:{diff}", "tester and real acceptor endpoint differ in a clean script"
